@@ -81,7 +81,9 @@ class C11(C.PipelineCheck):
 
     def scenarios(self, tier):
         q = tier != 'thorough'
-        for combo in ('length', 'range', 'email', 'url', 'email,url', 'url,email', 'email,length', 'length,email', 'length,range', 'email|length', 'length|url'):
+        for combo in ('length', 'range', 'email', 'url', 'email,url', 'url,email', 'email,length', 'length,email', 'length,range', 'email|length', 'length|url',
+                      # constraints spread over several #[validate] attributes / items, in either order, next to a validator the tool does not translate
+                      'range|custom', 'custom|range', 'range,custom', 'custom,range', 'length|custom', 'custom|length', 'custom|email|length'):
             yield ('combo/%s' % combo, dict(kind='combo', combo=combo))
         for which in ('length-min', 'length-max', 'range-min', 'range-max', 'range-neg', 'length-underscore'):
             yield ('number/%s' % which, dict(kind='number', which=which))
@@ -211,6 +213,8 @@ class C11(C.PipelineCheck):
                         elif v == 'range':
                             items.append('range(min = 1, max = 5)')
                             e.cover('range')
+                        elif v == 'custom':
+                            items.append('custom(function = "check_it")')
                         elif v == 'email':
                             items.append('email')
                             expected.append(('email', None, None))
@@ -225,7 +229,7 @@ class C11(C.PipelineCheck):
                     # range belongs on a numeric field: put length (if any) on a string field is not possible in one attribute;
                     # use a numeric field and expect only the range bounds
                     ftype = 'i32'
-                    expected = [('min', concrete_num('1'), None), ('max', concrete_num('5'), None)] if combo == 'range' else None
+                    expected = [('min', concrete_num('1'), None), ('max', concrete_num('5'), None)] if set(combo.replace('|', ',').split(',')) <= {'range', 'custom'} else None
                     if expected is None:
                         raise PathAbort()
                 tag = 'combo:%s/%s' % (combo, ftype)
